@@ -104,6 +104,7 @@ def update_ref_contract(ref_is_none):
             st.pc.append(z3.Contains(st.heap[refs.oid].keys, z3.Unit(name.t)))   # unlinking an existing link
         fv = I.bound_method(W.param, I.src.find_method("Parameters", "_update_ref"))
         return fv, [name, ref], {}, {"W": W, "refs": refs, "arefs": arefs, "rw": rw, "name": name.t,
+                                     "arefs0": (st.heap[arefs.oid].keys, st.heap[arefs.oid].vals),
                                      "ref": I.term(ref), "refs0": (st.heap[refs.oid].keys, st.heap[refs.oid].vals),
                                      "symbols": {}}
 
@@ -130,6 +131,15 @@ def update_ref_contract(ref_is_none):
         out.append(("the watcher table is emptied before it is rebuilt",
                     z3.BoolVal(isinstance(rw, Ref) and st.heap[rw.oid].kind == "list" and rw.oid != info["rw"].oid
                                and st.heap[rw.oid].fields.get("$items") == [])))
+        # O4 (C10): a pending asynchronous task of this name is cancelled and forgotten
+        ah = st.heap[info["arefs"].oid]
+        nm_ = info["name"]
+        had_task = z3.Contains(info["arefs0"][0], z3.Unit(nm_))
+        cancelled = st.ghost.get("cancelled", [])
+        out.append(("a pending asynchronous task of the name is cancelled",
+                    z3.Implies(had_task, z3.Or([c == z3.Select(info["arefs0"][1], nm_) for c in cancelled]) if cancelled else z3.BoolVal(False))))
+        out.append(("… and no longer recorded as running", z3.Not(z3.Contains(ah.keys, z3.Unit(nm_)))))
+        out.append(("no task is cancelled when none is pending", z3.Implies(z3.Not(had_task), z3.BoolVal(len(cancelled) == 0))))
         sr = st.ghost.get("setup_refs", [])
         out.append(("watchers are re-installed by exactly one _setup_refs", z3.BoolVal(len(sr) == 1)))
         newrefs = ph.get("refs")
